@@ -175,10 +175,10 @@ def work(job):
                                       "detail": {"statement": it.stmt.text, "role": role, "expected_effect": eff, "row": row,
                                                  "context": gf.data()[max(0, it.start - 160):it.end + 20]},
                                       "case": {"rows": [row], "structured": structured, "eol": eol}})
-    if fileseed.endswith("-0"):
+    if fileseed.endswith("-0") or fileseed.endswith("-1") or fileseed.endswith("-2"):
         for it, eff, row, role in meta[:6]:
             if role == "subject":
-                res["samples"].append({"row": row, "expected_effect": eff,
+                res.setdefault("samples" if fileseed.endswith("-0") else "samples_fallback", []).append({"row": row, "expected_effect": eff,
                                        "context": gf.data()[max(0, it.start - 120):it.end],
                                        "reported": [o for o in fo.reported if it.start <= o < it.end],
                                        "tokens": [(t["off"] - it.start, t["tok"]) for t in fo.tokens if it.start <= t["off"] < it.end]})
